@@ -1,7 +1,7 @@
 (* GENERATED from C06_Props.v by tools/c06.py: the theorem statements as Props, for the proof files. *)
 From Coq Require Import List NArith Bool Arith.
 From Dae.gen Require Import C06_Extracted.
-From Dae Require Import C06_Spec C06_Model C06_Async C06_Session.
+From Dae Require Import C06_Spec C06_Model C06_Async C06_Session C06_Clock.
 Import ListNotations.
 Open Scope N_scope.
 
@@ -91,6 +91,18 @@ Definition C06_usable_after_timeout_nonvacuous_stmt : Prop :=
   fst (fst (sniff_tcp script)) = TimedOut
   /\ (let '(r, st, rest) := sniff_tcp script in relay_read_all 32768 st rest)
      = ([22; 3; 1; 0; 100; 1; 0; 1; 2], RsEof).
+
+Definition C06_sniff_wait_bounded_stmt : Prop :=
+  forall (origin timeout : N) (parse : bytes -> outcome) (sched : list arrival),
+    let '(r, t, buf, rest, ds) := clock_sniff extracted_policy origin timeout parse sched in
+    t <= origin + timeout
+    /\ Forall (fun d => d = origin + timeout) ds
+    /\ exists n : nat, rest = skipn n sched /\ buf = concat (map ar_data (firstn n sched)).
+
+Definition C06_sniff_wait_rearmed_refuted_stmt : Prop :=
+  exists (timeout : N) (parse : bytes -> outcome) (sched : list arrival),
+    let '(r, t, buf, rest, ds) := clock_sniff RearmedPerRead 0 timeout parse sched in
+    4 * timeout < t.
 
 Definition C06_async_same_without_timeout_stmt : Prop :=
   forall script : list rd,
